@@ -28,7 +28,7 @@ ASSUMPTIONS = ["no trade threshold (C12)", "epsilon snap of |position| < 1e-7 is
 REQUIRED = ["C03:same-request-other-account", "C03:chain-others-flat", "C03:target-weight-reached", "C03:target-contracts-reached", "C03:untargeted-closed",
             "C03:frictionless-weights", "C03:frictionless-nlv-unchanged", "C03:second-rebalance-trades-nothing",
             "C03:frictionless-contracts-reached", "C03:restored-account"]
-REQUIRED_CATS = ["requests-without-time", "same-request-two-accounts", "account-restored-in-another-interpreter"]
+REQUIRED_CATS = ["requests-without-time", "same-request-two-accounts", "account-restored-in-another-interpreter", "chain-target-with-chain-addressed-series-through-a-roll"]
 REQUIRED_HITS = ["Broker.rebalance", "Rebalancing.make_trades"]
 TECHNIQUE = "runtime monitoring: post-conditions at the Broker.rebalance boundary against an independent ledger"
 LEVEL_TEXT = ("Exploration. The real Broker.rebalance is driven from thousands of generated prior holdings and targets; after each "
@@ -247,9 +247,69 @@ def restored_scenario(ctx):
     ctx.sample = {"scenario": "account pickled, restored in another interpreter", "measure": meas, "targets": tgt}
 
 
+def chain_series_roll_scenario(ctx):
+    """The chain is the rebalancing target AND the market data is one continuous series addressed to the chain itself
+    (every quote lands in the book of whatever contract leads at that time).  A position is carried to a roll: the
+    rebalance right after the last-trading instant closes the old lead at its last quote and re-establishes the
+    target in the new lead at the chain's current quote."""
+    rng = ctx.rng
+    cls_ = rng.choice([ES, NK])
+    AbstractContract.now = datetime.min
+    chain = FutureChain(cls_, "2019-01", "2019-12")
+    old, new = chain.contracts[0], chain.contracts[1]
+    ltd = old.last_trading_date
+    ltd = ltd.to_pydatetime() if hasattr(ltd, "to_pydatetime") else ltd
+    t1 = ltd - timedelta(days=rng.randint(5, 20))
+    t2 = ltd + timedelta(hours=rng.choice([1, 30]))
+    fees = BrokerFees()
+    AbstractContract.now = t1
+    ex = gen.new_exchange(t1, fees)
+    px1 = rng.choice([100.0, 2500.0]) * rng.uniform(0.9, 1.1)
+    ex.process_EventNBBO(EventNBBO(t1, chain, px1, px1))            # the very first access to that book is by the chain
+    dep = rng.choice([1e5, 1e7])
+    b = Broker(ex, deposit=dep)
+    w1 = rng.choice([-1, 1]) * rng.uniform(0.3, 1.5)
+    b.rebalance(Rebalancing([chain], [w1], time=t1))
+    h = b.holdings_quantity
+    ctx.check("C03:frictionless-weights", abs(h.get(old, 0.0) * old.multiplier * px1 - w1 * dep) <= 1e-9 * dep * max(1, abs(w1)),
+              contract=old.symbol, got=h.get(old, 0.0) * old.multiplier * px1, want=w1 * dep, scenario="chain-series")
+    # a few more prints of the series before the roll, then the roll
+    px = px1
+    for k_ in range(rng.randint(0, 3)):
+        px *= rng.uniform(0.98, 1.02)
+        tk = t1 + timedelta(hours=k_ + 1)
+        AbstractContract.now = tk
+        ex.process_EventNBBO(EventNBBO(tk, chain, px, px))
+    n_before = dep + h.get(old, 0.0) * old.multiplier * (px - px1)
+    AbstractContract.now = t2
+    px2 = px * rng.uniform(0.97, 1.03)
+    ex.process_EventNBBO(EventNBBO(t2, chain, px2, px2))            # lands in the NEW lead's book
+    w2 = w1 * rng.uniform(0.8, 1.2)
+    try:
+        r = Rebalancing([chain], [w2], time=t2)
+        b.rebalance(r)
+    except Exception as ex_:
+        ctx.check("C03:chain-others-flat", False, error=repr(ex_)[:200], scenario="chain-series", roll=[old.symbol, new.symbol])
+        AbstractContract.now = datetime.min
+        return
+    h2 = b.holdings_quantity
+    ctx.check("C03:chain-others-flat", h2.get(old, 0.0) == 0.0, held={c.symbol: q for c, q in h2.items() if q and not isinstance(c, Cash)},
+              scenario="chain-series")
+    ctx.check("C03:frictionless-nlv-unchanged", abs(b.net_liquidation_value() - n_before) <= 1e-9 * (dep + abs(w1) * dep),
+              before=n_before, after=b.net_liquidation_value(), scenario="chain-series")
+    ctx.check("C03:frictionless-weights", abs(h2.get(new, 0.0) * new.multiplier * px2 - w2 * n_before) <= 1e-9 * dep * max(1, abs(w2)),
+              contract=new.symbol, got=h2.get(new, 0.0) * new.multiplier * px2, want=w2 * n_before, scenario="chain-series")
+    AbstractContract.now = datetime.min
+    ctx.cat("chain-target-with-chain-addressed-series-through-a-roll")
+    ctx.nontrivial = True
+    ctx.sample = {"scenario": "chain series through a roll", "class": cls_.__name__, "w": [w1, w2]}
+
+
 def case(ctx, i, tier):
     if i % 750 == 13:
         return restored_scenario(ctx)
+    if i % 150 == 77:
+        return chain_series_roll_scenario(ctx)
     if i % 2 == 0:
         frictionless(ctx)
     else:
